@@ -26,6 +26,9 @@ namespace {
       impl::Lexicon lx; impl::Translation_unit unit { lx };
       const ipr::Identifier* N[3]; Tracker tracked;
       void junk() { lx.get_pointer(lx.get_reference(lx.double_type())); lx.get_identifier(u8"unrelated"); lx.make_literal(lx.long_type(), u8"999"); lx.make_class(*unit.global_region()); }
+      // template 6: every located node gets its own line (100 + k); nlocated counts them
+      int nlocated = 0;
+      template<class D> void locate_k(D* d, const Params& p) { d->src_locus.file = File_index{ p.file }; d->src_locus.line = Line_number{ p.file ? 100u + nlocated : 0u }; d->src_locus.column = Column_number{ p.col }; ++nlocated; }
       template<class D> void locate(D* d, const Params& p) { d->src_locus.file = File_index{ p.file }; d->src_locus.line = Line_number{ p.line }; d->src_locus.column = Column_number{ p.col }; }
       void build(const Params& p, const History& h) {
          auto& reg = *unit.global_region();
@@ -84,6 +87,25 @@ namespace {
             impl::Var* t = reg.declare_var(*N[2], lx.int_type()); t->init = &e4;
             impl::Var* s = reg.declare_var(*N[2], lx.bool_type()); s->init = &e5;
             tracked.node<ipr::Var>(*v); break; }
+         case 6: {       // a function body with local declarations that contain located nodes of their own, each with its own line
+            impl::Mapping* m = lx.make_mapping(reg, Mapping_level{ 0 });
+            impl::Parameter* a = m->param(*N[1], lx.int_type()); locate_k(a, p);
+            impl::Block* body = lx.make_block(m->parameters().region(), lx.void_type());
+            impl::Var* lv = body->lexical_region.declare_var(*N[2], *cq); lv->init = &lit; locate_k(lv, p); body->add_stmt(*lv);                       // a local variable
+            impl::Class* c = lx.make_class(body->lexical_region); c->id = N[0];
+            impl::Field* f0 = c->declare_field(*N[1], *cq); locate_k(f0, p); impl::Field* f1 = c->declare_field(*N[2], *ptr); locate_k(f1, p);      // members of a local class
+            impl::Typedecl* td = body->lexical_region.declare_type(*N[0], lx.class_type()); td->init = c; locate_k(td, p); body->add_stmt(*td);
+            impl::Enum* e = lx.make_enum(body->lexical_region, ipr::Enum::Kind::Scoped); e->id = N[1]; locate_k(e->add_member(*N[2]), p);                 // an enumerator of a local enumeration
+            impl::Typedecl* ed = body->lexical_region.declare_type(*N[1], lx.enum_type()); ed->init = e; locate_k(ed, p); body->add_stmt(*ed);
+            impl::Expr_stmt* es = lx.make_expr_stmt(*lx.make_assign(*lx.make_id_expr(*lv), *lx.make_id_expr(*a))); locate_k(es, p); body->add_stmt(*es);
+            impl::Return* rt = lx.make_return(*lx.make_id_expr(*lv)); locate_k(rt, p);
+            impl::Block* inner = lx.make_block(body->lexical_region); inner->add_stmt(*rt); locate_k(inner, p);
+            body->add_stmt(*lx.make_if(*lx.make_id_expr(*a), *inner));
+            m->body = body;
+            impl::Warehouse<ipr::Type> w; w.push_back(lx.int_type());
+            auto& ft = lx.get_function(lx.get_product(w), lx.void_type()); m->typing = &ft;
+            impl::Fundecl* f = reg.declare_fun(*N[0], ft); f->data.emplace<1>(m); locate_k(f, p);
+            tracked.node<ipr::Fundecl>(*f); tracked.node<ipr::Block>(*body); break; }
          default: {      // types: pointer, reference, array, function, pointer to member, product, qualified
             impl::Class* c = lx.make_class(reg); c->id = N[0];
             impl::Warehouse<ipr::Type> w; w.push_back(*ptr); w.push_back(lx.get_reference(*cq));
@@ -126,7 +148,7 @@ namespace {
 }
 // two constructions of the same graph in two Lexicons, differing in creation order and unrelated allocations
 extern "C" void h_same_text(void) {
-   Params p; make_params(p, 6);
+   Params p; make_params(p, 7);
    uint64_t loc = nondet_ulong(); p.file = uint32_t(loc) & 0xffff; p.line = uint32_t(loc >> 16) & 0xffff; p.col = uint32_t(loc >> 32) & 0xffff;      // symbolic locations (numbers compared as terms)
    p.print_locations = vp_flag();
    History ha { 0, false, false, true, false }, hb = make_history();
@@ -155,5 +177,23 @@ extern "C" void h_locations(void) {
    bool expect = p.print_locations && has_file;
    vp_assert(vp_stream_contains(oa, p.col ? "F7:8:9 " : "F7:8 ") == expect, 11);
    vp_assert(vp_streams_equal(oa, op) == !expect, 12);             // otherwise exactly the text of the location-free graph
+   vp_done();
+}
+// every located node of a function body with local declarations (parameter, local variable, members of a local class, enumerator of a
+// local enumeration, the declaration statements themselves, expression / return statements, an inner block, the function): its own
+// location appears when, and only when, location printing is enabled
+extern "C" void h_locations_each(void) {
+   Params p; make_params(p, 1); p.tmpl = 6;
+   p.file = 7; p.line = 0; p.col = vp_flag() ? 9 : 0; p.print_locations = vp_flag();
+   History h { 0, false, false, true, false };
+   Graph* a = new Graph; a->build(p, h);
+   std::ostringstream* oa; int ra = a->print(p.print_locations, oa);
+   vp_assert(ra == 0 && a->nlocated >= 10, 20);
+   for (int k = 0; k < a->nlocated; ++k) {
+      char needle[16] = "F7:100"; needle[4] = char('0' + (100 + k) / 10 % 10); needle[5] = char('0' + (100 + k) % 10);
+      int n = 6; if (p.col) { needle[n++] = ':'; needle[n++] = '9'; } needle[n++] = ' '; needle[n] = 0;
+      vp_assert(vp_stream_contains(oa, needle) == p.print_locations, 21);
+      vp_observe(100 + k, vp_stream_contains(oa, needle));
+   }
    vp_done();
 }
